@@ -1,6 +1,7 @@
 """'reconnect' profile (C17): one real RSocketClient whose transport provider hands out fresh
 simulated links to fresh real servers; connections are ended by server EOF, reset, keepalive
 timeout (silent server) or reconnect() while healthy."""
+import asyncio
 import random
 from datetime import timedelta
 
@@ -17,10 +18,13 @@ def gen_reconnect(seed, opts=None):
     P = _pick(rng, [(2, 100), (2, 500), (1, 50)])
     L = P * rng.randint(3, 6)
     n_conn = _pick(rng, [(3, 1), (2, 2), (1, 3), (1, 4)])
-    plan = {'exec': 'reconnect', 'profile': 'reconnect', 'seed': seed, 'loop': {'eps': _pick(rng, [(3, 0.0), (1, 1e-6)])},
+    plan = {'exec': 'reconnect', 'profile': (opts or {}).get('name', 'reconnect'), 'seed': seed, 'loop': {'eps': _pick(rng, [(3, 0.0), (1, 1e-6)])},
             'client': {'keepalive_ms': P, 'lifetime_ms': L, 'fragment': _pick(rng, [(3, None), (1, 64)])},
             'link': {'c2s': {'latency': 0.001}, 's2c': {'latency': _pick(rng, [(2, 0.001), (1, 0.003)])}},
             'nontrivial': True, 'P_ms': P, 'L_ms': L}
+    if rng.random() < 0.4:
+        # transports whose connect() really suspends (websocket handshake, lazily dialled TCP)
+        plan['connect_delay'] = _pick(rng, [(1, ['hops', rng.randint(1, 5)]), (1, ['time', _pick(rng, [(2, 0.001), (1, 0.02)])])])
     events = []
     t = 0.05
     ias = []
@@ -66,7 +70,15 @@ def gen_reconnect(seed, opts=None):
     plan['events'] = events
     plan['interactions'] = ias
     plan['horizon'] = t + 2 * P * MS * 3 + 0.5
+    if (opts or {}).get('lease') or rng.random() < 0.25:
+        # lease-honouring client; every server publishes its lease a little after the connection is up
+        plan['lease'] = {'delay': _pick(rng, [(1, 0.0), (2, 0.005), (2, 0.05), (1, 0.15)]), 'n': _pick(rng, [(1, 3), (3, 1000)]),
+                         'ttl_us': 600_000_000}
     return plan
+
+
+def gen_reconnect_lease(seed, opts=None):
+    return gen_reconnect(seed, dict(opts or {}, lease=True))
 
 
 def run_reconnect(plan):
@@ -115,11 +127,30 @@ def _run(world, plan):
             link.s2c.name = 's2c#%d' % k
             links.append(link)
             st = world.make_tcp_transport('server#%d' % k, link.server_reader, link.server_writer)
+            skw = {}
+            if plan.get('lease'):
+                from .exec_peer import _make_lease_publisher
+                lz = plan['lease']
+                skw['lease_publisher'] = _make_lease_publisher(world, [{'at': loop.time() + lz['delay'], 'n': lz['n'], 'ttl_us': lz['ttl_us']}])
             server = RSocketServer(st, handler_factory=server_factory(k),
-                                   keep_alive_period=timedelta(seconds=1000), max_lifetime_period=timedelta(seconds=10000))
+                                   keep_alive_period=timedelta(seconds=1000), max_lifetime_period=timedelta(seconds=10000), **skw)
             world.tap_endpoint('server#%d' % k, server)
             servers.append(server)
             ct = world.make_tcp_transport('client#%d' % k, link.client_reader, link.client_writer)
+            cd = plan.get('connect_delay')
+            if cd:
+                orig_connect = ct.connect
+
+                async def slow_connect(orig_connect=orig_connect, k=k):
+                    world.rec('tr', ep='client#%d' % k, what='connect_suspended')
+                    if cd[0] == 'hops':
+                        for _ in range(cd[1]):
+                            await asyncio.sleep(0)
+                    else:
+                        await asyncio.sleep(cd[1])
+                    await orig_connect()
+
+                ct.connect = slow_connect
             state['conn'] = k
             yield ct
             k += 1
@@ -152,7 +183,7 @@ def _run(world, plan):
         client = RSocketClient(provider(), handler_factory=client_factory,
                                keep_alive_period=timedelta(milliseconds=ccfg['keepalive_ms']),
                                max_lifetime_period=timedelta(milliseconds=ccfg['lifetime_ms']),
-                               fragment_size_bytes=ccfg.get('fragment'))
+                               fragment_size_bytes=ccfg.get('fragment'), honor_lease=bool(plan.get('lease')))
         world.tap_endpoint('client', client)
         orig_connect = client.connect
 
@@ -313,4 +344,30 @@ def oracle_c17(world):
     if len(closes) > ended:
         V('close_notified_too_often', 'on_close delivered %d times for %d ended connection(s)' % (len(closes), ended),
           closes[-1]['seq'], **facts0)
+    return out
+
+
+def oracle_c14_reconnect(world):
+    """Lease x reconnect: on every connection no request goes out before a LEASE has arrived on
+    that connection, and never more than that lease grants."""
+    out = []
+    V = lambda cls, msg, seq=None, **f: out.append(Violation('C14', 'C14.' + cls, msg, seq, **f))
+    plan = world.plan
+    if not plan.get('lease'):
+        return out
+    h = world.history
+    mark = next((e['seq'] for e in h if e['k'] == 'mark'), float('inf'))
+    conns = sorted({int(e['dir'].split('#')[1]) for e in h if e['k'] == 'wire' and '#' in str(e['dir'])})
+    for k in conns:
+        lease_rx = [e for e in h if e['k'] == 'rx' and e['ep'] == 'client#%d' % k and e['f']['type'] == 'LEASE']
+        reqs = [e for e in h if e['k'] == 'wire' and e['dir'] == 'c2s#%d' % k and e['f']['type'] in REQ_TYPES and e['seq'] < mark
+                and not e['f'].get('_cont')]
+        first_lease = lease_rx[0]['seq'] if lease_rx else float('inf')
+        early = [e for e in reqs if e['seq'] < first_lease]
+        if early:
+            V('sent_without_lease', 'connection %d: %s written before any LEASE arrived on this connection'
+              % (k, early[0]['f']['type']), early[0]['seq'], connection=k, after_reconnect=k > 0)
+        if lease_rx and len({(e['f']['sid']) for e in reqs}) > sum(e['f']['n'] for e in lease_rx):
+            V('sent_beyond_grant', 'connection %d: %d requests for %d granted' % (k, len(reqs), sum(e['f']['n'] for e in lease_rx)),
+              None, connection=k)
     return out
